@@ -1,7 +1,7 @@
 (* Props/C12.v — the theorems that decide property C12.  Statements only;
    every proof is [exact <lemma>]. *)
 From Coq Require Import List NArith Bool.
-From CKB Require Import Pool.PoolMap Pool.Reorg Pool.ReorgProofs.
+From CKB Require Import Pool.PoolMap Pool.Reorg Pool.ReorgProofs Pool.Submit Pool.SubmitProofs.
 Import ListNotations.
 Local Open Scope N_scope.
 
@@ -63,6 +63,33 @@ Theorem c12_stage_matches_window_refuted : exists c p,
   stages_match (c_view c) (reorg no_limit no_victim total_size true c 1000 p [] [] [] 0 100000 []) = false.
 Proof. exact stage_matches_window_refuted. Qed.
 
+(* Clause 5 between two reorgs (submissions interleaved with the notification): a transaction pre-checked under the
+   snapshot s_pre and inserted by submit_entry while the pool holds s_now (a snapshot is determined by its tip hash)
+   gets the stage the window of s_now gives its id, whatever tip the pre-check saw — so a pool whose stages match
+   the window of the tip it is at keeps matching it, and the new entry is (t, status_of (window of s_now)) *)
+Theorem c12_stage_on_submission : forall fits s_pre s_now p t,
+  snaps_coherent s_pre s_now ->
+  stages_match (c_view (s_chain s_now)) p = true ->
+  stages_match (c_view (s_chain s_now)) (process_tx fits s_pre s_now p t) = true.
+Proof. exact submit_keeps_stages. Qed.
+Theorem c12_stage_of_submitted_entry : forall fits s_pre s_now p t e,
+  snaps_coherent s_pre s_now ->
+  In e (process_tx fits s_pre s_now p t) -> ~ In e p ->
+  e = (t, status_of (c_view (s_chain s_now)) (tx_id t)).
+Proof. exact submit_stage_of_new_entry. Qed.
+(* the hypotheses are met by a submission that straddles the end of the window (pre-checked Proposed under tip 10,
+   inserted Pending under tip 11); keeping the pre-check's status instead breaks the clause on that input *)
+Theorem c12_stage_on_submission_example :
+  snaps_coherent ex_s10 ex_s11 /\
+  snd (pre_check ex_s10 ex_t7) = Proposed /\
+  process_tx no_limit ex_s10 ex_s11 [] ex_t7 = [(ex_t7, Pending)] /\
+  stages_match (c_view (s_chain ex_s11)) (process_tx no_limit ex_s10 ex_s11 [] ex_t7) = true.
+Proof. exact ex_straddle. Qed.
+Theorem c12_submission_stage_needs_recheck :
+  stages_match (c_view (s_chain ex_s11)) [] = true /\
+  stages_match (c_view (s_chain ex_s11)) (process_tx_stale no_limit ex_s10 ex_s11 [] ex_t7) = false.
+Proof. exact stale_status_breaks. Qed.
+
 (* a reorg in which every step acts: commit with a conflict, detached header, detached proposal, stage moves, re-add *)
 Theorem c12_example :
   let p' := reorg no_limit no_victim total_size true ex_chain 1000 ex_before [tx1 1 [(0, 0)] 10] [77] [1] 0 100000 [tx1 8 [(0, 3)] 5] in
@@ -78,3 +105,7 @@ Redirect "out/C12.c12_readmitted" Print Assumptions c12_readmitted.
 Redirect "out/C12.c12_stage_matches_window_partial" Print Assumptions c12_stage_matches_window_partial.
 Redirect "out/C12.c12_stage_matches_window_refuted" Print Assumptions c12_stage_matches_window_refuted.
 Redirect "out/C12.c12_example" Print Assumptions c12_example.
+Redirect "out/C12.c12_stage_on_submission" Print Assumptions c12_stage_on_submission.
+Redirect "out/C12.c12_stage_of_submitted_entry" Print Assumptions c12_stage_of_submitted_entry.
+Redirect "out/C12.c12_stage_on_submission_example" Print Assumptions c12_stage_on_submission_example.
+Redirect "out/C12.c12_submission_stage_needs_recheck" Print Assumptions c12_submission_stage_needs_recheck.
